@@ -118,7 +118,7 @@ func (x *Exec) callWith(fr *Frame, st *State, in *ssa.Call, cc *ssa.CallCommon, 
 		x.yieldCall(fr, st, cc, fn, args, k)
 		return
 	}
-	x.foreignCall(fr, st, &CallEvent{Kind: "fn", FnTerm: fn.T, Args: args, Desc: desc, Org: fn.Org}, sig, args, k)
+	x.foreignCall(fr, st, &CallEvent{Kind: "fn", FnTerm: fn.T, Args: args, Desc: desc, Org: fn.Org, From: fn.From}, sig, args, k)
 }
 
 // foreignCall: code we know nothing about runs. Closures passed to it may be
@@ -141,6 +141,13 @@ func (x *Exec) foreignCall(fr *Frame, st *State, ev *CallEvent, sig *types.Signa
 			if n, ok := sig.Results().At(i).Type().(*types.Named); ok && n.Obj().Name() == "Seq" {
 				st.assume(Not(Eq(Term{fmt.Sprintf("(fid %s)", rs[i].T.S), "Int"}, IntLit(0))))
 				x.funcsUsed["assume:interface contract: methods returning ociregistry.Seq never return a nil iterator"] = true
+			}
+		}
+	}
+	if ev.Kind == "invoke" {
+		for i := range rs {
+			if _, ok := rs[i].Typ.Underlying().(*types.Signature); ok {
+				rs[i].From = ev
 			}
 		}
 	}
@@ -640,6 +647,30 @@ func (x *Exec) closureAsLoop(fr *Frame, st *State, c *Closure, ev *CallEvent) {
 	for _, p := range c.Fn.Params {
 		params = append(params, x.freshVal(body, "cb_"+p.Name(), p.Type()))
 	}
+	// assumed interface contract on the items of a Seq obtained from an
+	// interface method (seq-items rules)
+	if ev != nil && ev.From != nil {
+		for _, sr := range x.cs.SeqItems {
+			if sr.Method != ev.From.Method {
+				continue
+			}
+			env := &Env{x: x, st: body, vars: map[string]Val{}, pkg: x.pkgOf(fr.fn)}
+			for i, pn := range sr.Params {
+				if i < len(ev.From.Args) {
+					env.vars[pn] = ev.From.Args[i]
+				}
+			}
+			for i, pn := range strings.Split(sr.Owner, ",") {
+				if i < len(params) {
+					env.vars[strings.TrimSpace(pn)] = params[i]
+				}
+			}
+			for _, c := range sr.Ens {
+				body.assume(x.evalBool(env, c.Expr))
+			}
+			x.funcsUsed["assume:interface contract (seq-items): "+sr.Method+" "+sr.Ens[0].Src] = true
+		}
+	}
 	savedStack := x.inlineStack
 	x.inlineStack = append(x.inlineStack, c.Fn)
 	x.runFunction(c.Fn, body, params, c, fr.depth+1, func(s2 *State, rs []Val) {
@@ -758,7 +789,7 @@ func (x *Exec) yieldCall(fr *Frame, st *State, cc *ssa.CallCommon, fn Val, args 
 	x.oblige(st, "SEQ", "yield-after-stop("+x.posText(cc.Pos())+")", Not(st.stopped), "consumer called again after it declined further items or an error was delivered")
 	if x.ctr != nil {
 		for _, yr := range x.ctr.YieldReq {
-			env := &Env{x: x, st: st, vars: map[string]Val{}, pkg: x.pkgOf(x.fn), fr: nil}
+			env := &Env{x: x, st: st, vars: map[string]Val{}, pkg: x.pkgOf(x.fn), fr: fr}
 			for i, pn := range yr.Params {
 				if i < len(args) {
 					env.vars[pn] = args[i]
